@@ -1,6 +1,8 @@
 import YardlProofs.WireStream
 import YardlProofs.StreamsW
 import YardlProofs.StreamsR
+import YardlProofs.PyStreamSeq
+import YardlProofs.CppStreamSeq
 
 /-!
 # C01 — Binary write/read round trip and wire-format conformance
@@ -87,6 +89,54 @@ theorem cpp_reader_refines_bytes (s : CIS) (hc : 0 < s.cap) (hinv : s.Inv) (bs r
     (hp : s.pending = bs ++ rest) :
     ∃ s', s.readBytes bs.length = .ok bs s' ∧ s'.pending = rest ∧ s'.Inv ∧ s'.cap = s.cap :=
   CIS.readBytes_ok s hc hinv bs rest hp
+
+/-- **The C++ input stream, over whole read sequences**, ended by `VerifyFinished`: the reads matching what was
+    written return exactly the written items, in order, for every capacity ≥ 10 and every split of the data between
+    window and underlying stream; `Close` then accepts exactly when nothing follows. -/
+theorem cpp_reader_refines_sequence (items : List CItem) (s : CIS) (hc : 10 ≤ s.cap) (hinv : s.Inv)
+    (hi : ∀ i ∈ items, i.ok) (rest : Bytes) (hp : s.pending = encCItems items ++ rest) :
+    ∃ s', s.readItems items = .ok (items.map CItem.val) s' ∧ s'.pending = rest ∧ s'.Inv ∧ s'.cap = s.cap :=
+  CIS.readItems_ok items s hc hinv hi rest hp
+
+theorem cpp_reader_sequence_then_finished (items : List CItem) (s : CIS) (hc : 10 ≤ s.cap) (hinv : s.Inv)
+    (hi : ∀ i ∈ items, i.ok) (rest : Bytes) (hp : s.pending = encCItems items ++ rest) :
+    ∃ s', s.readItems items = .ok (items.map CItem.val) s' ∧
+      (rest = [] → ∃ s'', s'.verifyFinished = .ok () s'') ∧ (rest ≠ [] → s'.verifyFinished = .notFinished) :=
+  CIS.readItems_then_finished items s hc hinv hi rest hp
+
+/-! Non-vacuity: a varint straddling the refill followed by a byte, nothing after it. -/
+example : (⟨10, [0xac], false, [0x02, 0x07]⟩ : CIS).pending = encCItems [.var64 300, .byte 7] ++ [] ∧
+    (∀ i ∈ [CItem.var64 300, CItem.byte 7], i.ok) := by
+  refine ⟨by simp [CIS.pending, encCItems, CItem.enc, encVar], ?_⟩
+  intro i hi
+  simp at hi
+  rcases hi with h | h <;> subst h <;> simp [CItem.ok]
+
+/-- **The Python input stream, over whole read sequences.** A generated Python reader is a sequence of primitive
+    reads of `CodedInputStream`; a reader that issues the reads matching what was written gets exactly the written
+    items, in order, and leaves what follows unread — for every buffer size (fixed-size reads must fit it), every
+    split of the data between buffer and underlying stream, every sequence of bytes, fixed-size numbers, varints
+    and byte runs of any length. -/
+theorem py_reader_refines_sequence (items : List RItem) (s : PIS) (hc : 0 < s.cap) (hinv : s.Inv)
+    (hf : ∀ i ∈ items, i.fits s.cap) (rest : Bytes) (hp : s.pending = encItems items ++ rest) :
+    ∃ s', s.readItems items = .ok (items.map RItem.val) s' ∧ s'.pending = rest ∧ s'.Inv ∧ s'.cap = s.cap :=
+  PIS.readItems_ok items s hc hinv hf rest hp
+
+/-- … and a sequence cut inside a byte, fixed-size number or byte run is an error, never a value (varints: C16). -/
+theorem py_reader_sequence_cut (s : PIS) (i : RItem) (hv : ∀ n, i ≠ .var n) (hp : s.pending.length < i.enc.length) :
+    (match s.readItem i with | .ok _ _ => false | _ => true) = true :=
+  PIS.readItem_cut s i hv hp
+
+/-! Non-vacuity: an 8-byte buffer, 300 as a varint straddling the first refill, a 4-byte number, a run longer than
+    the buffer; the model delivers them (kernel-evaluated) and the hypotheses hold. -/
+def exItems : List RItem := [.byte 7, .var 300, .fixed [1, 0, 0, 0], .bytes [1, 2, 3, 4, 5, 6, 7, 8, 9, 10, 11], .var 5]
+example : (PIS.init 8 (encItems exItems ++ [0xff])).Inv := PIS.init_inv _ _
+example : ∀ i ∈ exItems, i.fits 8 := by
+  intro i hi
+  simp [exItems] at hi
+  rcases hi with h | h | h | h | h <;> subst h <;> simp [RItem.fits]
+example : (match (PIS.init 8 (encItems exItems ++ [0xff])).readItems exItems with
+    | .ok vs s' => vs == exItems.map RItem.val && s'.pending == [0xff] | _ => false) = true := by decide +kernel
 
 /-! Non-vacuity of the stream theorems: a nearly full 10-byte buffer, a varint that must straddle. -/
 example : (⟨10, [1, 2, 3, 4, 5, 6, 7, 8], [], false⟩ : COS).Inv := by simp [COS.Inv]
